@@ -194,6 +194,7 @@ func dataflowCase(c *Ctx, focus string) {
 		cfg.FCfg.MaxChunks = 9 + c.Plan.Draw(5)
 		c.Res.Probes["many-chunks-cases"]++
 	}
+	cfg.FCfg.BigInts = c.Plan.Draw(3) == 0
 	cfg.Flags = append(baseFlags(c.Plan), "--vdrmode=disable", "--strict=error")
 	if c.Plan.Draw(6) == 0 || os.Getenv("VERIF_DF_CLUSTER") != "" {
 		// cluster mode: two job managers (`local` calls and, unless told otherwise,
@@ -358,6 +359,8 @@ func c11Case(c *Ctx) {
 		sel = 0
 	case "stall":
 		sel = 1
+	case "quick":
+		sel = 2
 	}
 	switch sel {
 	case 0:
@@ -365,6 +368,9 @@ func c11Case(c *Ctx) {
 		return
 	case 1:
 		c11Stall(c)
+		return
+	case 2:
+		c11QuickRetry(c)
 		return
 	}
 	AdvOn = true
